@@ -1,4 +1,5 @@
 """The engine component shared by C06, C19 (and the runtime halves of C05, C15, C17)."""
+import re
 import tops
 from props.c20 import OVERLAY
 
@@ -17,9 +18,20 @@ class EngineC(tops.Component):
         return any("open:c" in l for l in cr.impl)
 
     def finding_id(self, cr):
-        if cr.ops and " regrace " in cr.ops[-1] and cr.oracle and all("C19: an accepted Register call delivered no result" in m for _, m in cr.oracle):
-            return "register-races-with-shutdown"
-        return None
+        """every oracle message of the case must be explained by a listed finding"""
+        if not cr.ops or not cr.oracle:
+            return None
+        ws = cr.ops[-1].split()
+        ids = set()
+        for _, m in cr.oracle:
+            if ws[0] == "life" and ws[6] == "regrace" and "C19: an accepted Register call delivered no result" in m:
+                ids.add("register-races-with-shutdown")
+            elif ws[0] == "life" and not (ws[3] == "1" and ws[1] != "unix") and int(ws[5]) > 0 and "C07:" in m and "after Run returned" in m \
+                    and re.search(r"leaked (socket\(connected\),?)+$", m.strip()):
+                ids.add("accepted-socket-leaks-when-loop-exits-first")
+            else:
+                return None
+        return sorted(ids) or None
 
 
 class EngineRace(EngineC):
